@@ -1208,7 +1208,9 @@ pub fn try_add_op(r: &mut Rng, cfg: &GenCfg, st: &mut GenState) {
     // with toggles in play, now and then the previous statement is written again with one of its operands toggled in
     // between (`y - w` ... `y - w` after `w.stop_tracking()`): the same operation on the same buffers, decided anew
     let mut forced_pre: Option<(usize, bool)> = None;
-    let repeat = if cfg.toggles && r.chance(1, 6) {
+    // (without toggles the previous statement is now and then simply written a second time: two nodes of one kind over
+    // the same handles)
+    let repeat = if r.chance(1, if cfg.toggles { 6 } else { 14 }) {
         match st.p.nodes.last() {
             Some(Node::Op { kind, args, .. }) if !kind.is_alias() => Some((kind.clone(), args.clone())),
             _ => None,
@@ -1218,9 +1220,11 @@ pub fn try_add_op(r: &mut Rng, cfg: &GenCfg, st: &mut GenState) {
     };
     let (kind, args) = match repeat {
         Some((k, a)) => {
-            let h = *r.pick(&a);
-            let flags = current_flags(&st.p);
-            forced_pre = Some((h, !flags[h]));
+            if cfg.toggles {
+                let h = *r.pick(&a);
+                let flags = current_flags(&st.p);
+                forced_pre = Some((h, !flags[h]));
+            }
             (k, a)
         }
         None => r.pick(&cands).clone(),
